@@ -761,3 +761,38 @@ def c13(run):
     run.add_samples(oks[:2])
     run.assumptions = ['the public key body octets are the crate\'s serialisation (decided against the RFC grammar by C05/C17)']
     run.notes['trusted_base'] = TRUSTED
+
+
+def symlayouts_cfg(invs='Inv', cbits='{0, 1, 4}'):
+    return (f"CONSTANTS\n  SPs = {{8, 9, 15, 16, 64, 65, 208}}\n  Cbits = {cbits}\n"
+            f"SPECIFICATION Spec\nINVARIANTS {invs}\nCHECK_DEADLOCK FALSE\n")
+
+
+@prop('C12', 'exploration')
+def c12(run):
+    cb = run.q('{0, 1, 4}', '{0, 1, 4, 6, 10, 16}')
+    run.mc('MCSymLayouts', symlayouts_cfg(cbits=cb), name='mc', workers=1)
+    # the chunked-AEAD and CFB+MDC stream machines the layouts plug into (C03's models)
+    run.mc('MCAeadStream', aead_cfg(3, 2, range(0, 9), True, 1, 2), name='mc_aead_stream')
+    g = run.mc('MCSymLayouts', symlayouts_cfg(invs='GenS2K GenSeipd GenSkesk GenSecKey GenEcdh', cbits=cb), name='gen', workers=1, count=False)
+    cases = g.cases
+    for i, c in enumerate(cases):
+        c.setdefault('ci', i)
+    body, summary, oks = run.harness('c12', cases, timeout=3300)
+    run.distinct_nontrivial = summary['extra']['nontrivial']
+    run.traces_validated = summary['evaluations']
+    run.rule = ('SymLayouts.tla states each RFC 9580 symmetric / KDF construction as a PLAN: S2K count decoding, the repeat/tail split of salt||password and '
+                'the zero-preloaded hash contexts; SEIPDv2 HKDF info octets, key/iv split, chunk tiling, nonce indices and the final-tag associated data; '
+                'SEIPDv1 prefix/MDC coverage; SKESK v4/v6 and secret-key protection (usage 253/254/255, tag octet 0xC5/0xC7 in info and associated data); '
+                'ECDH KDF parameter layout, fixed-width Z and PKCS5 padding; X25519/X448 HKDF inputs. TLC checks the arithmetic invariants (count monotone, '
+                'rounds cover the key, chunks tile the plaintext, padding to 8) and emits every plan. The harness executes the plans on the RustCrypto primitives '
+                '(own CFB and RFC 3394 key wrap over the block ciphers, hkdf, eax/ocb3/aes-gcm, argon2, x25519-dalek, cx448, p256/p384/p521) and compares with the crate '
+                'in BOTH directions: crate output must open under the plan, plan output must open in the crate - StringToKey::derive_key for every coded count, '
+                'SymEncryptedProtectedData v1 (11 ciphers) / v2 (9 cipher x mode pairs x chunk sizes x plaintext lengths 0..3 chunks), SKESK v4/v6 x 4 S2K types, '
+                'whole password messages, locked secret keys (primary and subkey, v4 and v6), PKESK for ECDH Curve25519/P-256/P-384/P-521 and X25519/X448 with '
+                'ephemeral keys ground until the shared secret starts with a zero octet')
+    run.add_samples([c for c in cases if c['kind'] in ('seipd2', 'ecdh')][:2])
+    run.add_samples(oks[:2])
+    run.assumptions = ['the primitive crates (hash, block cipher, AEAD mode, HKDF, Argon2, curve arithmetic) are correct; only their COMPOSITION is decided here',
+                       'refusals by policy (weak hash in an S2K, unsalted S2K on write, usage 255 on write) are not construction questions and are recorded as skipped directions']
+    run.notes['trusted_base'] = TRUSTED
